@@ -23,7 +23,7 @@ MARK = "(* ==== INSTANCE ===="
 KINDS = ["iaf_cells", "pulse_generators", "exp_one_synapses", "izhikevich_cells"]
 INSTANCE_THEOREMS = ["C07_state_ok", "C07_loads_history_independent", "C07_builders_do_not_interfere",
                      "C07_no_default_is_mutated", "C07_every_field_is_per_instance", "C07_no_written_global_is_read",
-                     "C07_class_metadata_is_constant", "C07_process_state_is_restored", "C07_handlers_do_not_write_argument_objects"]
+                     "C07_class_metadata_is_constant", "C07_process_state_is_restored", "C07_handlers_do_not_write_argument_objects", "C07_no_set_order_reaches_documents"]
 
 
 # --------------------------------------------------------------------------------------- translator
@@ -78,7 +78,10 @@ def gen_table(d):
              "  st_globals := %s;" % coq_list(gs).replace("; {|", ";\n    {|"),
              "  st_classmeta := %s;" % coq_list(cm).replace("; {|", ";\n    {|"),
              "  st_process := %s;" % coq_list(ps).replace("; {|", ";\n    {|"),
-             "  st_argwrites := %s |}." % coq_list(aw).replace("; {|", ";\n    {|")]
+             "  st_argwrites := %s;" % coq_list(aw).replace("; {|", ";\n    {|"),
+             "  st_setorder := %s |}." % coq_list(["{| so_module := %s; so_func := %s; so_expr := %s |}"
+                                                  % (coq_str(x["module"]), coq_str(x["func"]), coq_str(x["expr"]))
+                                                  for x in d.get("set_iteration_order", [])])]
     shp = d["entry_defaults"].get("shape", {})
     lines += ["(* the version-dependent places of loaders.py / NetworkBuilder.py, read off the source *)",
               "Definition shape : lshape := {| sh_mark_entry := %s; sh_append_first := %s; sh_h5_threads := %s |}."
@@ -100,6 +103,7 @@ INST = {
     "defaults": "Lemma defaults_ok : mutated_defaults Gen_C07.table = [].\nProof. vm_compute. reflexivity. Qed.\n",
     "fields": "Lemma fields_ok : all_own Gen_C07.table = true.\nProof. vm_compute. reflexivity. Qed.\n",
     "globals": "Lemma globals_ok : globals_read Gen_C07.table = [].\nProof. vm_compute. reflexivity. Qed.\n",
+    "setorder": "Lemma set_order_ok : set_iteration_sites Gen_C07.table = [].\nProof. vm_compute. reflexivity. Qed.\n",
     "argwrites": "Lemma argument_writes_ok : argument_writes Gen_C07.table = [].\nProof. vm_compute. reflexivity. Qed.\n",
     "process": "Lemma process_state_ok : process_leaks Gen_C07.table = [].\nProof. vm_compute. reflexivity. Qed.\n",
     "classmeta": "Lemma classmeta_ok : mutated_class_attrs Gen_C07.table = [].\nProof. vm_compute. reflexivity. Qed.\n",
@@ -143,6 +147,8 @@ def table_and_props(ck, d):
                 ref.append("Lemma interleave_refuted_for_this_table :\n"
                            "  bdump (placement_of Gen_C07.table) WA (brun Gen_C07.elec_guard (placement_of Gen_C07.table) wit_sched bsys0)\n"
                            "  <> solo_dump Gen_C07.elec_guard (ops_of WA wit_sched).\nProof. vm_compute. discriminate. Qed.\n")
+        if not inst_ok["setorder"]:
+            ref.append("Lemma set_order_refuted : set_iteration_sites Gen_C07.table <> [].\nProof. vm_compute. discriminate. Qed.\n")
         if not inst_ok["argwrites"]:
             ref.append("Lemma argument_writes_refuted : argument_writes Gen_C07.table <> [].\nProof. vm_compute. discriminate. Qed.\n")
         if not inst_ok["process"]:
@@ -1144,6 +1150,97 @@ def run_schedules(ck, tmp, pool, placement_known):
                 ck.extra["builder_model_cases"] = ck.extra.get("builder_model_cases", 0) + len(part) + (len(streams) if k == 0 else 0)
 
 
+# ---- the interpreter's configuration is not input: hash seed (set/dict iteration order), python -O, working directory
+def _cells(ids):
+    return [["iaf_cells", i] for i in ids]
+
+
+O_POOL = [
+    {"name": "o_a.nml", "kind": "xml", "items": _cells(["cellAlpha", "b7", "zeta_1", "Q"]) + [["exp_one_synapses", "sA1"], ["exp_one_synapses", "sA2"],
+                                                                                            ["exp_one_synapses", "sA3"]], "includes": []},
+    {"name": "o_b.nml", "kind": "xml", "items": _cells(["m2x", "Beta", "k_9", "aa"]), "includes": []},
+    {"name": "o_c.nml", "kind": "xml", "items": _cells(["gamma", "c3", "Y_y", "n0"]) + [["pulse_generators", "pgC1"], ["pulse_generators", "pgC2"],
+                                                                                      ["pulse_generators", "pgC3"]], "includes": ["o_b.nml"]},
+    {"name": "o_top.nml", "kind": "xml", "items": _cells(["own0"]), "includes": ["o_a.nml", "o_b.nml", "o_c.nml"],
+     "net": {"id": "netO", "pops": [{"id": "p0", "comp": "cellAlpha", "size": 2}, {"id": "p1", "comp": "gamma", "size": 1}],
+             "projs": [], "ilists": []}},
+    {"name": "o_top2.nml", "kind": "xml", "items": [], "includes": ["o_c.nml"]},
+    # HDF5: the components travel as embedded XML and are merged into the built document
+    {"name": "o_h5.nml.h5", "kind": "h5", "items": _cells(["hAlpha", "h7", "eta_1", "HQ", "hm2"]) + [["exp_one_synapses", "hs1"],
+                                                                                                     ["exp_one_synapses", "hs2"],
+                                                                                                     ["exp_one_synapses", "hs3"]],
+     "includes": ["o_a.nml"],
+     "net": {"id": "netOh", "pops": [{"id": "p0", "comp": "hAlpha", "size": 2}], "projs": [], "ilists": []}},
+]
+O_CALLS = [
+    {"ep": "file", "name": "o_top.nml", "incl": True}, {"ep": "string", "name": "o_top.nml", "incl": True},
+    {"ep": "inner_path", "name": "o_top.nml", "incl": True}, {"ep": "file", "name": "o_top2.nml", "incl": True},
+    {"ep": "string", "name": "o_top2.nml", "incl": True}, {"ep": "xmlparser", "name": "o_top.nml"},
+    {"ep": "h5", "name": "o_h5.nml.h5"}, {"ep": "file", "name": "o_h5.nml.h5", "incl": True},
+    {"ep": "h5", "name": "o_h5.nml.h5", "opt": True}, {"ep": "file", "name": "o_c.nml", "incl": True},
+    {"ep": "file", "name": "o_top.nml", "incl": False},
+]
+
+
+def run_interpreter_configurations(ck):
+    tmp = tempfile.mkdtemp(prefix="c07_cfg_")
+    try:
+        job = {"kind": "ordered", "calls": O_CALLS}
+        # the files are written once (default configuration); every other configuration only reads them
+        ref = ck.impl("c07_impl.py", {"dir": tmp, "pool": O_POOL, "jobs": [job]}, timeout=300)["jobs"][0]
+        rv = [x.get("value") for x in ref["value"]]
+        merged = 0
+        for c, r in zip(O_CALLS, rv):
+            if not (r and r.get("ok")):
+                raise RuntimeError("reference run of the ordered calls failed: %s %s" % (c, json.dumps(r)[:500]))
+            merged = max([merged] + [len(v) for o in r["order"].values() for v in o.values()])
+        ck.extra["ordered_calls"] = {"calls": len(O_CALLS), "longest_member_list": merged}
+        configs = [("PYTHONHASHSEED=1", {"extra_env": {"PYTHONHASHSEED": "1"}}),
+                   ("PYTHONHASHSEED=3", {"extra_env": {"PYTHONHASHSEED": "3"}, "cwd": "/"}),
+                   ("PYTHONHASHSEED=7", {"extra_env": {"PYTHONHASHSEED": "7"}}),
+                   ("python-O", {"pyflags": ["-O"]})]
+        for label, kw in configs:
+            o2 = ck.try_impl("c07_impl.py", {"dir": tmp, "jobs": [job]}, timeout=300, label="ordered[%s]" % label, **kw)
+            if not o2:
+                continue
+            j = o2["jobs"][0]
+            if label.startswith("PYTHONHASHSEED") and j.get("hashseed") != label.split("=")[1]:
+                raise RuntimeError("the child did not run under %s: %s" % (label, j.get("hashseed")))
+            if label == "python-O" and not j.get("optimize"):
+                raise RuntimeError("the child did not run under -O")
+            for c, a, x in zip(O_CALLS, rv, [y.get("value") for y in j["value"]]):
+                ck.count(1, nontrivial_key=("cfg", label, c))
+                ck.tally("other-interpreter-configuration")
+                entry = c["ep"] + ("-optimized" if c.get("opt") else "")
+                if not x or x.get("ok") != a.get("ok") or x.get("err") != a.get("err"):
+                    ck.witness("C07:interpreter-configuration:%s:%s:outcome-differs" % (label, entry),
+                               "under %s the call ends differently than under the default interpreter configuration" % label,
+                               input={"kind": "ordered", "pool": O_POOL, "call": c, "configuration": label},
+                               expected={"ok": a.get("ok"), "err": a.get("err")}, observed={"ok": (x or {}).get("ok"), "err": (x or {}).get("err")},
+                               broken="Inst_C07_setorder.v:set_order_ok")
+                    continue
+                diffs = [(k, m) for k in a["order"] for m in a["order"][k] if x["order"].get(k, {}).get(m) != a["order"][k][m]]
+                diffs += [(k, m) for k in x["order"] for m in x["order"][k] if m not in a["order"].get(k, {})]
+                if diffs:
+                    k, m = diffs[0]
+                    same_set = sorted(a["order"][k].get(m, [])) == sorted(x["order"].get(k, {}).get(m, []))
+                    ck.witness("C07:interpreter-configuration:%s:%s:%s" % (label, entry, "member-order-differs" if same_set else "members-differ"),
+                               "the same call on the same files returns the member list `%s` of the %s in another order under %s than under "
+                               "the default configuration (PYTHONHASHSEED=0): the document is not a function of the input alone"
+                               % (m, k.replace("_", " "), label),
+                               input={"kind": "ordered", "pool": O_POOL, "call": c, "configuration": label},
+                               expected={"member_list": m, "order": a["order"][k].get(m)},
+                               observed={"member_list": m, "order": x["order"].get(k, {}).get(m), "lists_differing": [d2[1] for d2 in diffs][:6]},
+                               broken="Inst_C07_setorder.v:set_order_ok")
+                elif a.get("nets") != x.get("nets"):
+                    ck.witness("C07:interpreter-configuration:%s:%s:network-differs" % (label, entry),
+                               "the networks of the returned document differ under %s" % label,
+                               input={"kind": "ordered", "pool": O_POOL, "call": c, "configuration": label},
+                               expected={"nets": a.get("nets")}, observed={"nets": x.get("nets")}, broken="Inst_C07_setorder.v:set_order_ok")
+    finally:
+        shutil.rmtree(tmp, ignore_errors=True)
+
+
 # ------------------------------------------------------------------------------------------------ run
 def run(ck):
     ck.rule = ("(a) histories of real loader calls (every entry point; repeated / permuted; explicit and default "
@@ -1180,6 +1277,7 @@ def run(ck):
                                               if x["mutated"] or x["escapes"]],
                          "shared_fields": ["%s.%s" % (x["cls"], x["attr"]) for x in d["fields"] if x["placement"] == "Shared"],
                          "globals_read": ["%s.%s" % (x["module"], x["name"]) for x in d["globals"] if x["readers"]],
+                         "set_iteration_order": d.get("set_iteration_order", []),
                          "argument_writes": [{k: x[k] for k in ("module", "func", "param", "via", "attr", "line", "how", "handler")}
                                              for x in d.get("argument_writes", [])],
                          "process_state": [{k: x[k] for k in ("module", "func", "line", "kind", "call", "scope", "restored", "how")}
@@ -1205,6 +1303,7 @@ def run(ck):
         ck.count(1, nontrivial_key=("classmeta", x["attr"]))
         ck.tally("table:class-" + x["kind"])
     gen_ok = bool(inst_ok)
+    run_interpreter_configurations(ck)
     for pi in range(ck.n(1, 4)):
         tmp = tempfile.mkdtemp(prefix="c07_")
         try:
@@ -1288,6 +1387,14 @@ def replay(ck, data):
             v = out["jobs"][0]["value"]
             print(json.dumps({k: v[k].get("value") for k in v}, indent=1))
             rc = 1 if v["fresh"]["value"]["swc"] != v["after_load"]["value"]["swc"] else 0
+        elif kind == "ordered":
+            job = {"kind": "ordered", "calls": [inp["call"]]}
+            a = ck.impl("c07_impl.py", {"dir": tmp, "pool": inp["pool"], "jobs": [job]})["jobs"][0]["value"][0].get("value")
+            lab = inp["configuration"]
+            kw = {"pyflags": ["-O"]} if lab == "python-O" else {"extra_env": {"PYTHONHASHSEED": lab.split("=")[1]}}
+            x = ck.impl("c07_impl.py", {"dir": tmp, "jobs": [job]}, **kw)["jobs"][0]["value"][0].get("value")
+            print(json.dumps({"call": inp["call"], "default_configuration": a, lab: x}, indent=1)[:8000])
+            rc = 1 if a != x else 0
         elif kind == "optlist":
             out = ck.impl("c07_impl.py", {"dir": tmp, "jobs": [{"kind": "optlist"}]})
             v = out["jobs"][0]["value"]
